@@ -487,11 +487,11 @@ def obligations(tier, seed):
             'keys': 'key letter-case variant (3), permutation index of distinct properties (24), indentation 0-1'}
     for i in range(len(M_BASES)):
         for fo in ['lines', 'space', 'keys']:
-            obs.append(Obligation(id=f'layout-m{i}-{fo}', factory='layout', params={'kind': 'm', 'i': i, 'focus': fo}, timeout=to,
+            obs.append(Obligation(id=f'layout-m{i}-{fo}', factory='layout', params={'kind': 'm', 'i': i, 'focus': fo}, timeout=(180 if (q and fo == 'lines') else to),
                                   group='layout insensitivity (merchants files)', bounds=f'base file m{i}; symbolic ' + what[fo]))
     for i in range(len(V_BASES)):
         for fo in ['lines', 'space', 'keys']:
-            obs.append(Obligation(id=f'layout-v{i}-{fo}', factory='layout', params={'kind': 'v', 'i': i, 'focus': fo}, timeout=to,
+            obs.append(Obligation(id=f'layout-v{i}-{fo}', factory='layout', params={'kind': 'v', 'i': i, 'focus': fo}, timeout=(180 if (q and fo == 'lines') else to),
                                   group='layout insensitivity (views files)', bounds=f'base file v{i}; symbolic ' + what[fo]))
     for i in range(len(M_BASES)):
         for how in ['drop-match', 'unknown-key', 'bad-match', 'bad-let', 'let-no-eq', 'bad-field', 'field-no-eq', 'bad-priority', 'junk-line', 'colon-typo', 'empty-name', 'no-category-no-tags']:
